@@ -6,7 +6,7 @@
     [iso g h] = some map injective on the nodes of g relabels g into h up to [geq]. *)
 From Coq Require Import List NArith ZArith Bool Arith Permutation.
 From SK Require Import lib.IRSortKeys lib.IRCore lib.IRSearch model.C18_Model model.C18_AttrModel model.C18_WLModel model.C18_BackendModel model.C18_DepthModel model.C18_IntIdsModel model.C18_UFModel model.C18_AutAttrModel model.C18_SpAttrModel model.C18_RunModel proof.C18_Attr proof.C18_Order proof.C18_Spec
-  proof.C18_Graph proof.C18_Canon proof.C18_Equiv proof.C18_Label proof.C18_Aut proof.C18_Invariant proof.C18_Wf proof.C18_Count proof.C18_View proof.C18_Vf2 proof.C18_Vf2Count proof.C18_Refine proof.C18_NetBip proof.C18_Net proof.C18_NetSp proof.C18_Orbits proof.C18_OrbSound proof.C18_OrbComplete proof.C18_OrbCanon proof.C18_Maps proof.C18_WL proof.C18_Backend proof.C18_Depth proof.C18_IntIds proof.C18_UF proof.C18_AutAttr proof.C18_SpAttr proof.C18_AttrEquiv proof.C18_Examples.
+  proof.C18_Graph proof.C18_Canon proof.C18_Equiv proof.C18_Label proof.C18_Aut proof.C18_Invariant proof.C18_Wf proof.C18_Count proof.C18_View proof.C18_Vf2 proof.C18_Vf2Count proof.C18_Refine proof.C18_NetBip proof.C18_Net proof.C18_NetSp proof.C18_Orbits proof.C18_OrbSound proof.C18_OrbComplete proof.C18_OrbCanon proof.C18_Maps proof.C18_WL proof.C18_Backend proof.C18_Depth proof.C18_IntIds proof.C18_UF proof.C18_AutAttr proof.C18_SpAttr proof.C18_AttrEquiv proof.C18_BackendFlags proof.C18_IntIdsRen proof.C18_WLBound proof.C18_Examples.
 From SK Require Import lib.C18_IRValid.
 From SK Require lib.IRInst.
 Import ListNotations.
@@ -507,3 +507,36 @@ Theorem C18_spattr_count_lower_partial : forall (g : vgraph) (t : ltab) (nk : li
     In q (snd (canon_searchS g t nk ek)) -> In (map s q) (snd (canon_searchS g t nk ek)).
 Proof. exact (fun g t nk ek Hw s q => spattr_count_lower_partial g t nk ek s q Hw). Qed.
 Print Assumptions C18_spattr_count_lower_partial.
+
+(** The cached-view state machine, for EVERY script (no premise): the version counters of CRNHyperGraph / _CRNGraphBackend implement
+    exactly dirty flags.  [flag_hist] is a version-free specification: a mutating method call marks every analyzer dirty, an edit of
+    a side object behind the hypergraph's back marks nothing (this is where stale answers come from), a read rebuilds the view from
+    the current network value iff the analyzer is dirty or was never read, and serves the view it holds. *)
+Theorem C18_backend_is_dirty_flags : forall (n0 : net) (v0 : N) (steps : list hstep),
+  run_hist (HG n0 v0, []) steps = flag_hist n0 [] steps.
+Proof. exact backend_history_flags. Qed.
+Print Assumptions C18_backend_is_dirty_flags.
+
+(** Under integer_ids=True clause 2 holds for EVERY injective renaming of the species -- also one that maps a species label onto
+    a reaction id: species and reactions are numbered separately, so the numbered network never has a view-id collision.
+    [net_struct n]: species, reaction ids and the species inside one side are pairwise distinct (they are dict keys in
+    CRNHyperGraph) and the reactions mention listed species only.  Compare C18_species_renaming_refuted for the default naming. *)
+Theorem C18_intids_species_renaming : forall (st : bool) (f : N -> N) (n : net) (lab p lab' p' : list N),
+  net_struct n -> inj_on f (nspecies n) ->
+  (forall r, In r (nrxns n) -> forall sc, In sc (lhs r ++ rhs r) -> (0 < snd sc)%Z) ->
+  fst (canon_search (view true st (intids_net n))) = Some (lab, p) ->
+  fst (canon_search (view true st (intids_net (rename_species f n)))) = Some (lab', p') ->
+  lab' = lab /\ geq (canon_graph (view true st (intids_net (rename_species f n))) p') (canon_graph (view true st (intids_net n)) p).
+Proof. exact (fun st f n lab p lab' p' Hs Hf => intids_species_renaming f n Hs Hf st lab p lab' p'). Qed.
+Print Assumptions C18_intids_species_renaming.
+
+(** WLCanonicalizer._estimate_aut_count (product of the factorials of the colour-cell sizes, every factor and the product capped
+    at automorphism_cap) is never an under-estimate: it is at least min(cap, number of structure-preserving self-maps), for every
+    choice of n_iter / include_in_neighbors / include_out_neighbors.  ([length (auts g)] is that number: C18_vf2_count; it equals the
+    canonicaliser's automorphism_count.)  Proof: every self-map permutes every colour cell (C18_wl_never_splits_orbit) and is
+    determined by its action on the cells, so the self-maps inject into the product of the permutation lists of the cells. *)
+Theorem C18_wl_estimate_upper : forall (g : vgraph) (inb outb : bool) (n_iter : nat) (cap : N), wf g ->
+  (N.min cap (N.of_nat (length (auts g)))
+   <= estimate (map (@length N) (wl_cells g (wl_colors g [] [NKind] [ERole; EStoich] inb outb n_iter))) 1%N cap)%N.
+Proof. exact (fun g inb outb n cap Hw => wl_estimate_upper g inb outb n Hw cap). Qed.
+Print Assumptions C18_wl_estimate_upper.
